@@ -6,7 +6,8 @@
 EXTENDS Position, Integers, Sequences, TLC
 CONSTANTS MaxIn
 \* characters: <<code, width, newline, name>>
-Alpha == << <<97, 1, 0, "a">>, <<10, 1, 1, "n">>, <<233, 2, 0, "e">>, <<65533, 1, 0, "x">>, <<13, 1, 0, "m">> >>
+Alpha == << <<97, 1, 0, "a">>, <<10, 1, 1, "n">>, <<233, 2, 0, "e">>, <<65533, 1, 0, "x">>, <<13, 1, 0, "m">>,
+          <<65533, 1, 0, "u">> >>     \* u: a stray UTF-8 continuation byte (0xA9), x: a byte that can start nothing (0xFF)
 VARIABLES input, i, pos
 vars == <<input, i, pos>>
 Chars(inp) == [k \in 1..Len(inp) |-> <<Alpha[inp[k]][1], Alpha[inp[k]][2], Alpha[inp[k]][3]>>]
